@@ -49,14 +49,15 @@ func c09ShedRun(r *zsim.Run) {
 	threshold := int64(900)
 	var overloadReads []time.Duration
 	overloadUntil := time.Duration(-1)
+	overloadOdds := zsim.Pick(f, 12, 200, 3000)
 	saved := systemOverloadChecker
 	defer func() { systemOverloadChecker = saved }()
 	systemOverloadChecker = func(th int64) bool {
 		if th != threshold {
 			r.Failf("wrong-threshold", "checker called with %d", th)
 		}
-		// overload comes in periods
-		if r.Now() > overloadUntil && f.Intn(12) == 11 {
+		// overload comes in periods; how often is drawn per run (busy runs, and runs with long quiet stretches after an overload)
+		if r.Now() > overloadUntil && f.Intn(overloadOdds) == overloadOdds-1 {
 			overloadUntil = r.Now() + time.Duration(50+f.Intn(2000))*time.Millisecond
 		}
 		if r.Now() <= overloadUntil {
